@@ -242,6 +242,15 @@ Theorem C19_point_roundtrip :
 Proof. exact vk_string_roundtrip. Qed.
 Print Assumptions C19_point_roundtrip.
 
+(* a hybrid string whose tag byte contradicts the parity of y is rejected (OpenSSL does the same) *)
+Theorem C19_hybrid_inconsistent_rejected : forall sqrt_mod c x y ve, x < c_p c -> y < c_p c ->
+  e_hyb (encs_norm ve) = true ->
+  point_from_bytes sqrt_mod c
+    ((if N.odd y then x06 else x07) :: be (N.to_nat (orderlen (c_p c))) x ++ be (N.to_nat (orderlen (c_p c))) y)
+    true ve = Err EMalformedPoint.
+Proof. intros sq c x y ve Hx Hy. exact (point_from_bytes_hyb_inconsistent sq (c_p c) x y Hx Hy c eq_refl ve). Qed.
+Print Assumptions C19_hybrid_inconsistent_rejected.
+
 Theorem C19_point_encode_total : forall c x y e, x < c_p c -> y < c_p c ->
   exists s, vk_to_string c x y e = Ok s /\
     blen s = blen (enc_tag y e) + (match e with Compressed => 1 | _ => 2 end) * orderlen (c_p c).
